@@ -90,7 +90,7 @@ def devUtf8 (d : Data) : Bool := d.strings.any (fun s => !validUTF8 s)
 
 /-- A batch whose dimension list is not the sorted list of its tag keys — outside what the edge constructors and the
 nodes build (`GroupByNode` built such a header with `SetTagsAndDimensions` when a dimension was named twice in
-`groupBy`, until `fix:` a050cea: former finding batch-dims-rederived; today only a hand-made header is like this).
+`groupBy`, until `fix:` 6ba92e9: former finding batch-dims-rederived; today only a hand-made header is like this).
 Deviated output: the same batch with the dimensions re-derived from the tags and the group ID of those. -/
 def devDims : Data → Bool
   | .batch b _ => decide (b.dims ≠ sortedKeys b.tags)
